@@ -121,7 +121,18 @@ func (l *listener) Serve() error {
 	}
 
 	vhook.At("listener.serve.after_bind")
+	l.mu.Lock()
 	l.ln = ln
+	l.mu.Unlock()
+	// NOTE: Stop or Drain may have been called while binding, they couldn't
+	// see the listener then, so it must be closed here.
+	select {
+	case <-l.quit:
+		ln.Close()
+	case <-l.drain:
+		ln.Close()
+	default:
+	}
 	l.Infof("start serving at %s", ln.Addr().String())
 	vhook.At("listener.serve.before_accept")
 	l.serve()
@@ -251,18 +262,25 @@ func (l *listener) connsLimit() bool {
 }
 
 func (l *listener) Address() string {
-	if l.ln == nil {
+	ln := l.getListener()
+	if ln == nil {
 		return ""
 	}
-	return l.ln.Addr().String()
+	return ln.Addr().String()
+}
+
+func (l *listener) getListener() net.Listener {
+	l.mu.Lock()
+	defer l.mu.Unlock()
+	return l.ln
 }
 
 func (l *listener) Drain() error {
 	l.drainOnce.Do(func() {
 		close(l.drain)
 	})
-	if l.ln != nil {
-		l.ln.Close()
+	if ln := l.getListener(); ln != nil {
+		ln.Close()
 	}
 	return nil
 }
@@ -275,10 +293,11 @@ func (l *listener) Stop() error {
 	l.mu.Lock()
 	conns := l.conns
 	l.conns = nil
+	ln := l.ln
 	l.mu.Unlock()
 
-	if l.ln != nil {
-		l.ln.Close()
+	if ln != nil {
+		ln.Close()
 	}
 	for conn := range conns {
 		conn.Close()
